@@ -212,6 +212,10 @@ impl St {
             tr.borrow_mut().open = false;
         }
         tr.borrow_mut().credits = cfg_u64(cfg, "credits", 0) as usize;
+        if let Some(n) = cfg.get("spin").and_then(|v| v.as_u64()) {
+            // burst scenarios legitimately perform thousands of transport operations in one poll
+            tr.borrow_mut().spin_limit = n as u32;
+        }
         let config = server::Config {
             pending_response_buffer: cfg_u64(cfg, "respBuf", 1) as usize,
         };
@@ -851,7 +855,8 @@ pub fn run_one(scn: u64, s: &Sched) -> OneResult {
         json!({"id": s.id, "limit": st.limit, "respBuf": cfg_u64(&s.cfg, "respBuf", 1),
                "mode": cfg_str(&s.cfg, "mode", "always"), "cap": cfg_u64(&s.cfg, "cap", 1),
                "open": s.cfg.get("open").and_then(|v| v.as_bool()).unwrap_or(true),
-               "credits": cfg_u64(&s.cfg, "credits", 0)}),
+               "credits": cfg_u64(&s.cfg, "credits", 0),
+               "burst": s.cfg.get("burst").and_then(|v| v.as_bool()).unwrap_or(false)}),
     );
     st.steps = s.steps.clone();
     st.expect = s.expect.clone();
